@@ -27,8 +27,17 @@ Table ==
       [] s = "-" -> << Cand("-", "sub", 2, 100, "left", "infix", "any"), Cand("-", "neg", 1, 100, "right", "prefix", "any") >>
       [] s = "*" -> << Cand("*", "mul", 2, 200, "left", "infix", "any") >>
       [] s = "/" -> << Cand("/", "div", 2, 200, "left", "infix", "any") >> ]
-\* the base OperatorResolver.resolve: the whole run must be a symbol of the table
-ResolveRun(cs) == IF Len(cs) = 1 THEN cs ELSE <<"<run>">>
+\* DOC: adjacent operator characters are read one by one, a run of signs as the single sign of its parity ("x = -1", "2 * -x",
+\* "x - -y" are specifications over the allowed symbols).  The pinned code looked the whole run up as one symbol and rejected them.
+Signs == {"+", "-"}
+RECURSIVE CollapseSigns(_)
+CollapseSigns(cs) ==
+  IF cs = <<>> THEN <<>>
+  ELSE IF Head(cs) \notin Signs THEN <<Head(cs)>> \o CollapseSigns(Tail(cs))
+  ELSE LET n == CHOOSE k \in 1..Len(cs) : (\A i \in 1..k : cs[i] \in Signs) /\ (k = Len(cs) \/ cs[k + 1] \notin Signs)
+           minus == Cardinality({i \in 1..n : cs[i] = "-"})
+       IN <<IF minus % 2 = 1 THEN "-" ELSE "+">> \o CollapseSigns(SubSeq(cs, n + 1, Len(cs)))
+ResolveRun(cs) == IF Len(cs) = 1 THEN cs ELSE CollapseSigns(cs)
 
 (* the "," operator accepts a context in which every stacked OPERATOR of precedence <= -200 is a "," *)
 (* (context tokens are ignored), which the generic machine expresses as ctx = "commas"              *)
